@@ -924,7 +924,9 @@ let pred_c19 ad steps impl =
         if sts.(!i) = "?ga:g" then begin
           let grules = parse_rules_out os.(!i) in
           let edges key d = List.filter_map (fun r -> match r with
-              | _ :: k :: a :: b :: rest when k = key && a <> b && (match rest, d with [], None -> true | [x], Some y -> x = y | _ -> false) -> Some (a, b)
+              (* a binary definition (d = None) links the first two columns whatever follows them (extra "custom data"
+                 columns are allowed); a ternary one takes the domain from the third column *)
+              | _ :: k :: a :: b :: rest when k = key && a <> b && (match rest, d with _, None -> true | x :: _, Some y -> x = y | [], Some _ -> false) -> Some (a, b)
               | _ -> None) grules in
           let reach key d u v =
             u = v ||
@@ -1076,8 +1078,17 @@ let text_rows_of_adapter (ad : string) : string list list option =
   match String.split_on_char '@' ad with
   | [("T" | "Ft"); t] -> Some (List.map (List.map enc) (parsed_lines (dec t)))
   | _ -> None
-let dumps_are_rows (dp : string) (dg : string) (rows : string list list) : bool =
+(* the policy types a model spec ("r=..;p=..;p2=..;g=2;..") defines: keys beginning with p or g *)
+let defined_types (spec : string) : string list =
+  List.filter_map (fun kv -> match String.index_opt kv '=' with
+      | Some i when i > 0 && (kv.[0] = 'p' || kv.[0] = 'g') -> Some (String.sub kv 0 i)
+      | _ -> None) (String.split_on_char ';' spec)
+(* a row whose first column is not a policy type of the model (unknown section letter, unknown type of a known section,
+   a multi-byte first character) is skipped by the loaders: it must not surface in any store *)
+let dumps_are_rows ?(spec = "") (dp : string) (dg : string) (rows : string list list) : bool =
   let dump = parse_rules_out dp @ parse_rules_out dg in
+  let rows = if spec = "" then rows else
+      let dt = defined_types spec in List.filter (function t :: _ -> List.mem t dt | [] -> false) rows in
   let types = uniq (List.filter_map (function t :: _ -> Some t | [] -> None) rows @ List.filter_map (function _ :: t :: _ -> Some t | _ -> None) dump) in
   List.for_all (fun t ->
       List.filter_map (function _ :: t' :: f when t' = t -> Some f | _ -> None) dump
@@ -1237,7 +1248,7 @@ let pred_eng line spec ad flags steps impl =
   | "C16" ->
     (* a whole policy text through an adapter: the loaded stores are exactly the rows of the text, also after a reload *)
     (match text_rows_of_adapter ad, impl_results impl with
-     | Some rows, Some [p1; g1; ld; p2; g2] -> b01 (dumps_are_rows p1 g1 rows && ld = "1" && p2 = p1 && g2 = g1)
+     | Some rows, Some [p1; g1; ld; p2; g2] -> b01 (dumps_are_rows ~spec p1 g1 rows && ld = "1" && p2 = p1 && g2 = g1)
      | Some _, _ -> "0"
      | None, _ -> "-")
   | "C14" -> b01 (try pred_c14 line spec ad flags steps impl with Failure _ -> false)
